@@ -219,8 +219,13 @@ impl ZoneHandler for Scripted {
         _request_info: Option<&RequestInfo<'_>>,
         _lookup_options: LookupOptions,
     ) -> LookupControlFlow<AuthLookup> {
-        // only reached from `build_authoritative_response` (NS / SOA of the origin)
-        LookupControlFlow::Skip
+        // only reached from `build_authoritative_response` (NS / SOA of the origin): "unexpected
+        // skip", or "failed to lookup soa" / "ns_lookup errored" for every other handler
+        if (self.zi + self.hi) % 2 == 0 {
+            LookupControlFlow::Skip
+        } else {
+            LookupControlFlow::Continue(Err(LookupError::ResponseCode(ResponseCode::ServFail)))
+        }
     }
     async fn consult(
         &self,
